@@ -107,7 +107,7 @@ inline Plan Gen(uint64_t seed)
    GenState g(clients, hosts); g.quietOk = cfg.oneIn(4);   // one run in four also uses the quiet flags (quiet set, quiet removal, quiet subscribe) with their documented relaxations
    for (int c=0; c<clients; c++) if ((c < 2)||(cfg.pct(70))) GenConnect(p, g, cfg, fl, c, faultFree);
    p.push_back("step 2");
-   const int nops = 8 + (int) wl.below(wl.oneIn(4) ? 70 : 30);
+   const int nops = Rng(seed, "longrun").oneIn(20) ? (250 + (int) wl.below(350)) : (8 + (int) wl.below(wl.oneIn(4) ? 70 : 30));   // 1 run in 20 is a long history (tables and queues grow through several of their boundaries)
    int sinceQuiesce = 0;
    for (int op=0; op<nops; op++)
    {
